@@ -234,6 +234,9 @@ type Explorer struct {
 	PreemptBound *int
 	// MaxPointOccurrence, when > 0, only preempts at the first so many occurrences of each site.
 	MaxPointOccurrence int
+	// CandidateBound > 0 also collects preemption candidates from every unarmed schedule with up to that many deviations
+	// (default: the occurrences of the default schedule only).
+	CandidateBound int
 	// PointFilter, when set, restricts the preemption sweep to the point occurrences it accepts.
 	PointFilter func(occurrence string) bool
 
@@ -245,6 +248,7 @@ type Explorer struct {
 	sampled     int
 	lastOutcome string
 	armed       []string
+	collect     map[string]bool
 }
 
 var watchdogArmed atomic.Int64 // unix nanos of the start of the running execution (0 = none)
@@ -269,7 +273,9 @@ var (
 	poisoned   map[string]bool
 )
 
-func poisonKey(scenario string, prefix []string) string { return scenario + "|" + strings.Join(prefix, " ") }
+func poisonKey(scenario string, prefix []string) string {
+	return scenario + "|" + strings.Join(prefix, " ")
+}
 
 // loadPoison reads the schedules that crashed the process in an earlier attempt of this shard (engine panic): they are
 // reported by the driver and skipped here so that the rest of the space still gets explored.
@@ -461,8 +467,13 @@ func (e *Explorer) dfs(prefix []string, bound int) {
 		return
 	}
 	c := cost(x.Points, len(x.Points))
-	// every execution is generated once per bound iteration; count and check it in the iteration of its own cost
-	if c == bound && (c > 0 || e.shard == 0) {
+	if e.collect != nil {
+		// candidate collection pass of the preemption sweep: remember the point occurrences, do not count the execution
+		for _, pt := range x.W.PointsSeen() {
+			e.collect[pt] = true
+		}
+	} else if c == bound && (c > 0 || e.shard == 0) {
+		// every execution is generated once per bound iteration; count and check it in the iteration of its own cost
 		e.account(x)
 	}
 	for i := len(prefix); i < len(x.Points); i++ {
@@ -591,13 +602,37 @@ func (e *Explorer) replayFile(path string) {
 	}
 }
 
-
 // preemptionSweep: for every statement-level point occurrence hit by the default execution, one goroutine is preempted
 // exactly there (1 preemption) and the environment schedule is explored around it with the remaining deviation budget.
 func (e *Explorer) preemptionSweep() {
 	e.armed = nil
 	root := e.RunOnce(nil)
 	cands := root.W.PointsSeen()
+	if e.CandidateBound > 0 {
+		// also preempt at occurrences that only non-default schedules reach (error paths): union over the unarmed tree
+		e.collect = map[string]bool{}
+		saveShard, saveN := e.shard, e.n
+		e.shard, e.n = 0, 1
+		for b := 1; b <= e.CandidateBound && !e.stopped; b++ {
+			e.level1 = 0
+			e.dfs(nil, b)
+		}
+		e.shard, e.n = saveShard, saveN
+		inRoot := map[string]bool{}
+		for _, c := range cands {
+			inRoot[c] = true
+		}
+		var extra []string
+		for c := range e.collect {
+			if !inRoot[c] {
+				extra = append(extra, c)
+			}
+		}
+		sort.Strings(extra)
+		cands = append(cands, extra...)
+		e.collect = nil
+		e.Rep.Bound(e.Scn.Name+".preemption_candidates_from_deviations", e.CandidateBound)
+	}
 	seen := map[string]bool{}
 	done := 0
 	budget := e.MaxBound - 1
